@@ -19,12 +19,14 @@ import (
 	"regexp"
 	"strconv"
 	"strings"
+	"unicode/utf8"
 )
 
 var (
 	quoted1Re  = regexp.MustCompile(`'([^']*)'`)
 	quoted2Re  = regexp.MustCompile(`"((?:[^"\\]|\\.)*)"`)
 	quoted3Re  = regexp.MustCompile(`>>(.*?)<<`)
+	pathRe     = regexp.MustCompile(`[\w.\-]+(?:/[\w.\-]+)+`)
 	drcSufRe   = regexp.MustCompile(`-DRC-\d+`)
 	wordSepRe  = regexp.MustCompile(`[\s'"<>(),:;=\[\]{}]+`)
 	specialRe  = regexp.MustCompile(`[0-9A-Z_\-/.]`)
@@ -32,6 +34,18 @@ var (
 	msgPrefix  = []string{"ERROR>>> ", "WARNING>>> ", "Error: ", "ERROR>>>", "WARNING>>>"}
 	noNameElem = regexp.MustCompile(`<entry\s*/?>|name=""`)
 )
+
+// validUTF8: every invalid byte becomes U+FFFD, as encoding/json does when the case travels to the worker.
+func validUTF8(s string) string {
+	if utf8.ValidString(s) {
+		return s
+	}
+	var b strings.Builder
+	for _, r := range s { // ranging yields U+FFFD per invalid byte
+		b.WriteRune(r)
+	}
+	return b.String()
+}
 
 func collapse(s string) string { return strings.Join(strings.Fields(s), " ") }
 
@@ -51,7 +65,7 @@ func namesInput(c *c20Case, text string) string {
 	if strings.Contains(text, "Usage:") {
 		return "usage"
 	}
-	m := strings.ToValidUTF8(errorPart(text), "\ufffd")
+	m := validUTF8(errorPart(text))
 	m = drcSufRe.ReplaceAllString(m, "") // the program's own suffix of names taken from the device
 	var names []string
 	for n := range c.Files {
@@ -64,6 +78,19 @@ func namesInput(c *c20Case, text string) string {
 	for _, a := range c.Args {
 		if !strings.HasPrefix(a, "-") {
 			names = append(names, a)
+		}
+	}
+	// a path in the message that is an input file or lies directly in a directory of the input ("no such file")
+	known := map[string]bool{}
+	for _, n := range names {
+		known[n] = true
+		for i := strings.LastIndex(n, "/"); i > 0; i = strings.LastIndex(n[:i], "/") {
+			known[n[:i]] = true
+		}
+	}
+	for _, p := range pathRe.FindAllString(m, -1) {
+		if known[p] || known[p[:strings.LastIndex(p, "/")]] {
+			return "file"
 		}
 	}
 	for _, n := range names {
@@ -84,7 +111,7 @@ func namesInput(c *c20Case, text string) string {
 	var all strings.Builder
 	lineSet := map[string]bool{}
 	for _, v := range c.Files {
-		v = strings.ToValidUTF8(v, "\ufffd") // as the worker gets it (JSON transport)
+		v = validUTF8(v) // as the worker gets it (JSON transport)
 		all.WriteString(v)
 		all.WriteString("\n")
 		for _, l := range strings.Split(v, "\n") {
@@ -93,25 +120,34 @@ func namesInput(c *c20Case, text string) string {
 	}
 	text1 := collapse(all.String())
 	var frags []string
-	for _, mm := range quoted1Re.FindAllStringSubmatch(m, -1) {
-		frags = append(frags, mm[1])
-	}
-	for _, mm := range quoted2Re.FindAllStringSubmatch(m, -1) {
-		frags = append(frags, mm[1])
-		if u, err := strconv.Unquote(`"` + mm[1] + `"`); err == nil {
-			frags = append(frags, u)
-		}
-	}
-	for _, mm := range quoted3Re.FindAllStringSubmatch(m, -1) {
-		frags = append(frags, mm[1])
-	}
 	for _, l := range strings.Split(m, "\n") {
 		for _, p := range msgPrefix {
 			l = strings.TrimPrefix(l, p)
 		}
+		for _, mm := range quoted1Re.FindAllStringSubmatch(l, -1) {
+			frags = append(frags, mm[1])
+		}
+		for _, mm := range quoted2Re.FindAllStringSubmatch(l, -1) {
+			frags = append(frags, mm[1])
+			if u, err := strconv.Unquote(`"` + mm[1] + `"`); err == nil {
+				frags = append(frags, u)
+			}
+		}
+		for _, mm := range quoted3Re.FindAllStringSubmatch(l, -1) {
+			frags = append(frags, mm[1])
+		}
 		frags = append(frags, l)
 		if i := strings.LastIndex(l, ": "); i >= 0 {
-			frags = append(frags, l[i+2:])
+			tail := l[i+2:]
+			frags = append(frags, tail)
+			// the program may put its own command words in front of a line it quotes ("ip route add " + line):
+			// the rest must then be a WHOLE line of the input
+			w := strings.Fields(tail)
+			for k := 1; k <= 3 && k < len(w); k++ {
+				if lineSet[strings.Join(w[k:], " ")] {
+					return "fragment"
+				}
+			}
 		}
 	}
 	inWords := map[string]bool{}
